@@ -470,6 +470,7 @@ func runC20(cfg *config) *Report {
 	rep := newReport("C20", cfg.tier, cfg.seed)
 	r := newRng(cfg.seed + 20000)
 	rep.Rule = "library files with EVERY exported member of every record populated (forward and return variants) encoded by json.Marshal (what the server sends), decoded into the shipped client's IclFile, re-encoded and compared leaf by leaf with the server's document (member names matched case-insensitively as encoding/json does) and loaded back with FileFromJSON; then each integer member in turn raised to the largest value its X9 column holds; non-trivial = leaf comparison of a distinct member; distinct by member path"
+	clientLargeAnswers(rep, r)
 	members := map[string]bool{}
 	for variant := 0; variant < 2; variant++ {
 		f := fullyPopulated(r, variant)
